@@ -81,6 +81,15 @@ CLAIMS = {
         note='Decides: Elf_Dyn layout, tag table per machine/OS ABI, iteration order (terminator yielded, n+1), string tags, '
              'string-table selection, constructor wiring of both views, shared accessors (no overrides), symbol access by file '
              'offset, count-recovery order. Not decided: equality of the two views on concrete images. Trusted: glibc elf.h.'),
+    'C10': dict(
+        technique='whole-package stream-cursor typestate with effect summaries, yield rule and public-entry preconditions + cache '
+                  'discipline rules (paired arrays, bisect guards, memo-key completeness, who-writes, lazy-body purity)',
+        level=LEVEL,
+        note='Decides the two structural conditions that make history matter: every relative stream use follows a positioning of the '
+             'same activation (or a cooperative callee), no generator resumes into a relative use, protected nested parses stay under '
+             'preserve_stream_pos; caches are transparent (J rules). Histories themselves are NOT explored (a bounded exploration is a '
+             'model-checking/runtime technique). Known finding: define_file entries appended to the header during lazy decoding. '
+             'Trusted: receiver hints, two named cursor exceptions, the designated-writer tables in props/C10.py.'),
     'C12': dict(
         technique='abstract interpretation of the dispatch-table builder per configuration + operand signatures through the layout IR '
                   'vs DWARF 5 Table 7.9 rows',
